@@ -42,7 +42,17 @@ type c09scen struct {
 	Rep      int
 }
 
-var c09clients = append(append([]string{}, pki.AllCreds...), "plain-text", "abort-after-hello", "stall", "garbage", "stall-x48", "stall-x300", "garbage-x48")
+// resuming clients: every credential once more as a client that keeps a TLS session cache and connects three
+// times (the second and third handshakes resume the session of the first; the gate must not depend on that)
+func c09resuming() []string {
+	var out []string
+	for _, c := range pki.AllCreds {
+		out = append(out, c+"+resume")
+	}
+	return out
+}
+
+var c09clients = append(append(append([]string{}, pki.AllCreds...), c09resuming()...), "plain-text", "abort-after-hello", "stall", "garbage", "stall-x48", "stall-x300", "garbage-x48")
 
 func c09pki() *pki.PKI {
 	c09.once.Do(func() {
@@ -74,6 +84,7 @@ func c09setup(tier string, seed uint64) int {
 
 // expectedServed: handshake completed with a chain to the CA and (no rule or leaf CN == name).
 func c09expected(cfg, client string) bool {
+	client = strings.TrimSuffix(client, "+resume")
 	if !pki.ChainsToCA(client) {
 		return false
 	}
@@ -236,6 +247,37 @@ func (s *c09server) faulty(kind, tok string) (end func(), reply string) {
 				c.Close()
 			}
 		}, fmt.Sprintf("%d connections held open", len(cs))
+	}
+	if strings.HasSuffix(kind, "+resume") {
+		cfg := c09pki().ClientConfig(strings.TrimSuffix(kind, "+resume")).Clone()
+		cfg.ClientSessionCache = tls.NewLRUClientSessionCache(8)
+		var obs []string
+		resumed := 0
+		for k := 0; k < 3; k++ {
+			d := &net.Dialer{Timeout: 5 * time.Second}
+			c, err := tls.DialWithDialer(d, "tcp", addr, cfg)
+			if err != nil {
+				obs = append(obs, "handshake refused: "+err.Error())
+				continue
+			}
+			if c.ConnectionState().DidResume {
+				resumed++
+			}
+			t := &tcpClient{c: c}
+			c.SetDeadline(time.Now().Add(5 * time.Second))
+			if s.password {
+				t.do("AUTH", c08pass)
+			}
+			// the read also lets the client process a session ticket sent after the handshake
+			v, err := t.do("GET", tok)
+			if err != nil {
+				obs = append(obs, "disconnected: "+err.Error())
+			} else {
+				obs = append(obs, "reply: "+v.String())
+			}
+			c.Close()
+		}
+		return end, fmt.Sprintf("%d of 3 handshakes resumed a session; %s", resumed, strings.Join(obs, " | "))
 	}
 	// a complete handshake attempt with the credential
 	d := &net.Dialer{Timeout: 5 * time.Second}
@@ -424,7 +466,7 @@ func init() {
 	run.Register(&run.Prop{
 		ID: "C09", Level: "fault_enumeration",
 		Rule: func(tier string) string {
-			return "the scenario space {no rule, common-name rule, rule + password} x {no certificate, self-signed, foreign CA, expired, right CA wrong name, right name only on an intermediate, right CA right name, plain-text bytes on the TLS port, abort after ClientHello, stall, garbage, 48 and 300 simultaneous stalled connections, 48 simultaneous garbage connections} x position relative to two well-behaved client pairs {before, between, after} = 126 scenarios is enumerated completely (thorough: 5 repetitions), each against a fresh server configured through the file-based TLS path with a PKI minted at run time, on real loopback sockets. Oracle: (gate) a recording handler keyed by a per-client token: the client is served iff its handshake completes with a chain to the CA and (no rule or its LEAF common name matches); (containment) after the faulty client - and while a stalled one is still connected - a valid TLS client and a plain client must each dial, handshake and be answered; 'valid client not served' is a violation only with a structural witness (dial refused, or the goroutine profile shows the accept loop inside Handshake). Plus an in-process sweep of the certificate rule through hook H1 with fabricated connection states (0..3 peer certificates, the name at each chain position)"
+			return "the scenario space {no rule, common-name rule, rule + password} x {no certificate, self-signed, foreign CA, expired, right CA wrong name, right name only on an intermediate, right CA right name, each of these seven once more as a client with a TLS session cache connecting three times (later handshakes resume the first session), plain-text bytes on the TLS port, abort after ClientHello, stall, garbage, 48 and 300 simultaneous stalled connections, 48 simultaneous garbage connections} x position relative to two well-behaved client pairs {before, between, after} = 189 scenarios is enumerated completely (thorough: 5 repetitions), each against a fresh server configured through the file-based TLS path with a PKI minted at run time, on real loopback sockets. Oracle: (gate) a recording handler keyed by a per-client token: the client is served iff its handshake completes with a chain to the CA and (no rule or its LEAF common name matches); (containment) after the faulty client - and while a stalled one is still connected - a valid TLS client and a plain client must each dial, handshake and be answered; 'valid client not served' is a violation only with a structural witness (dial refused, or the goroutine profile shows the accept loop inside Handshake). Plus an in-process sweep of the certificate rule through hook H1 with fabricated connection states (0..3 peer certificates, the name at each chain position)"
 		},
 		Exhaustive:    func(string) bool { return true },
 		Assumptions:   []string{"handshake faults are produced by a real client over loopback; faults needing control of TCP segmentation inside the handshake are not produced"},
